@@ -19,7 +19,9 @@ FIXED = [["long", "char", "ptr", "short", "inner", "fnptr", "larr2", "llong"],
          ["char", "llong", "carr3", "parr2", "bool", "double", "uchar", "enum"],
          ["float", "iarr2", "ulong", "ushort", "uint", "int", "carr3", "long"],
          ["short", "iarr2x2", "char", "larr2x2", "carr2x2", "int"],
-         ["char", "innerp", "short", "inner", "ptr"]]
+         ["char", "innerp", "short", "inner", "ptr"],
+         # (a narrower guest long absorbed by the padding before a long long: equal sizes, different layouts)
+         ["long", "llong"], ["int", "long", "llong", "ptr", "llong"]]
 
 
 def run_abi(chk, wd, abi, thorough, nsample):
